@@ -83,6 +83,18 @@ def documented_use(case):
     return all(t.get('buffer', True) or G.body_nsel(t['body']) <= 1 for t in G.case_templates(case))
 
 
+def has_late_declaration(kids):
+    """a match declaration among the children of the root after some content"""
+    seen_content = False
+    for it in kids:
+        if isinstance(it, dict) and 'match' in it:
+            if seen_content:
+                return True
+        else:
+            seen_content = True
+    return False
+
+
 def _without_once(kids):
     """the same document with every once="true" switched off (to count how often such a template would fire)"""
     import copy
@@ -586,6 +598,12 @@ def shard(arg):
             if any(G.first_step_positional(t['match']) for t in ts):
                 res.count('repeat:first-step-positional-multistep')
         res.count('templates:%d' % len(ts))
+        if has_late_declaration(case['kids']):
+            # a py:match after some content: the subject of late_registration_applies_from_there_on,
+            # lazy_eq_eager_late and (kind hints) buffer_hint_irrelevant_late
+            res.count('late-declaration:' + case['kind'])
+            if case['kind'] == 'hints' and any(0 <= i < len(ts) for i in case.get('buffer', [])):
+                res.count('late-declaration:hints:some-template-unbuffered')
         txt = json.dumps(case['kids'])
         for tag, name in (('"inc"', 'include'), ('"for"', 'py:for'), ('"frag"', 'data-stream')):
             if tag in txt:
